@@ -90,7 +90,7 @@ def structural(chk, tier, crate, g, iH, iD):
     ws = writers_of_field(crate, g.path, iH)
     allowed = {"rand_jitter::JitterRng::<F>::new_with_timer", "<rand_jitter::JitterRng<F> as core::clone::Clone>::clone",
                "<rand_jitter::JitterRng<F> as rand_core::RngCore>::next_u32", "<rand_jitter::JitterRng<F> as rand_core::RngCore>::next_u64"}
-    chk.ob("R1", "data_half_used|writers", ws == allowed, "writers %s" % sorted(x.split("::")[-1] for x in ws),
+    chk.ob("R1", "data_half_used|writers", ws <= allowed, "writers %s" % sorted(x.split("::")[-1] for x in ws),
            sample={"field": "data_half_used", "writers": sorted(ws)})
     genkey = next((k for k in crate.bodies if crate.bodies[k]["def"] == GEN), None)
     if genkey is None:
@@ -100,6 +100,9 @@ def structural(chk, tier, crate, g, iH, iD):
     def fresh():
         ev = crate.evaluator()
         ev.no_inline.add(GEN)
+        # gen_entropy returns the value it leaves in `data` (C12.R8) and does not write H (R1): whether the caller stores the
+        # returned value into `data` again or not makes no difference
+        ev.overrides[genkey] = gen_entropy_override(genkey, iD, iH)
         st = State()
         ref, oid, v = sym_jitter(ev, st, g)
         return ev, st, ref, oid, v
@@ -117,6 +120,8 @@ def structural(chk, tier, crate, g, iH, iD):
     ev2, st2, ref2, oid2, v2 = fresh()
     setf(st2, oid2, iH, T.FALSE)
     G = synth_call(ev2, st2, genkey, [ref2], [sty_of(ev2)], ty_id(ev2, "u64"))
+    setf(st2, oid2, iD, G)
+    setf(st2, oid2, iH, T.FALSE)
     ok = ret is G and same_value(st.objs[oid], st2.objs[oid2]) and len(ev.calls) == 1
     chk.ob("R4", "next_u64|clears H, then exactly one gen_entropy, returns its value", ok,
            "returned %s; calls %s" % (T.show(ret, 3), [c[1].split("::")[-1] for c in ev.calls]), where=crate.bodies[k64]["span"][0],
